@@ -30,9 +30,9 @@ type Res struct {
 	Why string
 }
 
-func val(v cty.Value) Res       { return Res{V: v} }
-func errf(why string) Res       { return Res{Err: true, Why: why} }
-func unspec(why string) Res     { return Res{U: true, Why: why} }
+func val(v cty.Value) Res   { return Res{V: v} }
+func errf(why string) Res   { return Res{Err: true, Why: why} }
+func unspec(why string) Res { return Res{U: true, Why: why} }
 
 type Param struct {
 	Type      cty.Type
